@@ -20,19 +20,18 @@ fn byte_set_hex(bits: &[bool]) -> String {
 
 pub const SKIP_REASONS: [&str; 6] = ["no-parser", "parametric-or-subgrammar", "lexeme-not-exportable", "token-ranges-or-suffix", "several-lexeme-classes", "several-skip-lexemes"];
 
-/// `guides`: byte strings the walks try to follow (member strings of the grammar), besides random allowed bytes
-pub fn lexer_tie(world: &World, g: &Gram, guides: &[Vec<u8>], seed: u64, tag: usize, rep: &mut Report, mb: &mut ModelBatch) {
-    let base = world.matcher(g);
-    if base.is_error() { return; }
-    let Some(tp) = base.verif_token_parser() else { rep.count("lexer.skipped.no-parser"); return };
+/// sends the compiled grammar, the lexeme regexes and the M5 configuration of this grammar to the model driver
+/// (guards: a certificate beyond the state budget leaves the case undecided); returns the model id and the skip lexemes
+pub fn define_model(base: &llguidance::Matcher, tag: usize, rep: &mut Report, mb: &mut ModelBatch) -> Option<(usize, Vec<u32>)> {
+    let Some(tp) = base.verif_token_parser() else { rep.count("lexer.skipped.no-parser"); return None };
     let cg = tp.parser.grammar().verif_dump();
-    if cg.parametric || cg.syms.iter().any(|s| s.3) { rep.count("lexer.skipped.parametric-or-subgrammar"); return; }
+    if cg.parametric || cg.syms.iter().any(|s| s.3) { rep.count("lexer.skipped.parametric-or-subgrammar"); return None; }
     let lexemes = tp.parser.verif_lexemes();
-    if lexemes.iter().any(|l| l.0.is_none()) { rep.count("lexer.skipped.lexeme-not-exportable"); return; }
-    if lexemes.iter().any(|l| l.2 .4) { rep.count("lexer.skipped.token-ranges"); return; }
-    if lexemes.iter().any(|l| l.2 .6 != lexemes[0].2 .6) { rep.count("lexer.skipped.several-lexeme-classes"); return; }
+    if lexemes.iter().any(|l| l.0.is_none()) { rep.count("lexer.skipped.lexeme-not-exportable"); return None; }
+    if lexemes.iter().any(|l| l.2 .4) { rep.count("lexer.skipped.token-ranges"); return None; }
+    if lexemes.iter().any(|l| l.2 .6 != lexemes[0].2 .6) { rep.count("lexer.skipped.several-lexeme-classes"); return None; }
     let skips: Vec<usize> = lexemes.iter().enumerate().filter(|(_, l)| l.2 .0).map(|(i, _)| i).collect();
-    if skips.len() > 1 { rep.count("lexer.skipped.several-skip-lexemes"); return; }
+    if skips.len() > 1 { rep.count("lexer.skipped.several-skip-lexemes"); return None; }
     let allow_initial_skip = tp.parser.verif_allow_initial_skip();
     let syms = cg.syms.iter().map(|(rules, nullable, lexeme, _, _)| format!("{}/{}/{}", if rules.is_empty() { "-".to_string() } else { rules.iter().map(|r| r.to_string()).collect::<Vec<_>>().join("+") }, *nullable as u8, lexeme.map(|l| l.to_string()).unwrap_or("-".into()))).collect::<Vec<_>>().join(";");
     let id = 200_000 + tag;
@@ -49,6 +48,14 @@ pub fn lexer_tie(world: &World, g: &Gram, guides: &[Vec<u8>], seed: u64, tag: us
     }
     mb.push_guard(format!("lx def {id} {id} {} {} {}", skips.first().map(|s| s.to_string()).unwrap_or("-".into()), allow_initial_skip as u8, lx.join(";")), "ok".into(), tag);
     rep.count("lexer.grammars");
+    Some((id, cg.skips.clone()))
+}
+
+/// `guides`: byte strings the walks try to follow (member strings of the grammar), besides random allowed bytes
+pub fn lexer_tie(world: &World, g: &Gram, guides: &[Vec<u8>], seed: u64, tag: usize, rep: &mut Report, mb: &mut ModelBatch) {
+    let base = world.matcher(g);
+    if base.is_error() { return; }
+    let Some((id, cg_skips)) = define_model(&base, tag, rep, mb) else { return };
     let mut rng = Rng::new(seed ^ 0x1e8);
     let mut seen: std::collections::HashSet<Vec<u8>> = std::collections::HashSet::new();
     let nwalks = 4 + guides.len().min(4);
@@ -63,7 +70,7 @@ pub fn lexer_tie(world: &World, g: &Gram, guides: &[Vec<u8>], seed: u64, tag: us
             let bits: Vec<bool> = (0..256u32).map(|b| mask.is_allowed(b)).collect();
             let plain = st.definitive && st.row_infos_len == st.num_rows && st.row_lexemes.len() + 1 == st.rows.len() && !st.lexer_stack_top_eos;
             if plain && seen.insert(st.bytes.clone()) {
-                let is_skip: Vec<bool> = st.row_lexemes.iter().map(|l| l.iter().any(|x| cg.skips.contains(x))).collect();
+                let is_skip: Vec<bool> = st.row_lexemes.iter().map(|l| l.iter().any(|x| cg_skips.contains(x))).collect();
                 let lexs: Vec<String> = st.row_lexemes.iter().zip(is_skip.iter()).filter(|(_, sk)| !**sk).map(|(l, _)| csv(sorted(l.clone()).iter())).collect();
                 let nrows = 1 + is_skip.iter().filter(|x| !**x).count();
                 let acc = m.deep_clone().is_accepting().unwrap_or(false);
